@@ -806,8 +806,15 @@ func (fc *FnCtx) doBuiltin(b *ssa.Builtin, cc *ssa.CallCommon, args []Val, pos t
 		case *types.Array:
 			return Val{T: resT, L: []string{bvLit(uint64(u.Len()), 64)}}
 		case *types.Chan:
-			r := fc.freshVal("chanlen", resT)
-			fc.cur.assume(app("bvsge", r.L[0], bvLit(0, 64)))
+			// len/cap of a nil channel are 0; otherwise only non-negativity is known (cap is a function of the channel)
+			var r Val
+			if b.Name() == "cap" {
+				fc.declareFunOnce("chancap", "((_ BitVec 64)) (_ BitVec 64)")
+				r = Val{T: resT, L: []string{app("chancap", v.L[0])}}
+			} else {
+				r = fc.freshVal("chanlen", resT)
+			}
+			fc.cur.assume(and(app("bvsge", r.L[0], bvLit(0, 64)), implies(eq(v.L[0], bvLit(0, 64)), eq(r.L[0], bvLit(0, 64)))))
 			return r
 		}
 	case "append":
